@@ -108,6 +108,10 @@ def optimize_high_level_cmd_stream(sg, arch):
     # - Removes unnecessary DMA operations of LUT-s that are already present in SHRAM from sg's command stream
     cmd_stream = []  # will contain existing command stream minus unneeded DMA operations
     lut_state = LUTState()
+    # SHRAM address given to a LUT tensor earlier in this command stream. The address is stored in the tensor and the
+    # table index in the operation, not in the commands: all commands of an operation (one LUT DMA per stripe) use the
+    # values assigned last, so a LUT that has been given an address must keep it
+    assigned_address = {}
     slot_size = 256
     lut_start = arch.shram_lut_address
     lut_end = lut_start + arch.shram_lut_size
@@ -123,8 +127,13 @@ def optimize_high_level_cmd_stream(sg, arch):
         # LUT DMA operation
         lut_tens = cmd.out_tensor
         existing_tens = lut_state.get_equivalent(lut_tens)
+        prev_address = assigned_address.get(lut_tens)
+        if existing_tens is not None and prev_address is not None and existing_tens.address != prev_address:
+            # The same values are in SHRAM, but not where the earlier commands of this operation read them
+            existing_tens = None
         if existing_tens is not None:
             # LUT is already in SHRAM, no need to perform DMA
+            assigned_address[lut_tens] = existing_tens.address
             lut_tens.equivalence_id = existing_tens.equivalence_id
             lut_tens.address = existing_tens.address
             # the index counts slots of slot_size bytes whatever the size of the table, as for a newly placed table below
@@ -132,7 +141,11 @@ def optimize_high_level_cmd_stream(sg, arch):
             continue
         # Place the LUT in the last 2 blocks of SHRAM
         # Alignment is always on the size of the LUT, 256 for 256-byte LUT, 1K for 1K LUT, etc
-        address = lut_state.find_best_address(lut_start, lut_end, lut_tens.storage_size())
+        if prev_address is None:
+            address = lut_state.find_best_address(lut_start, lut_end, lut_tens.storage_size())
+        else:
+            address = prev_address
+        assigned_address[lut_tens] = address
         lut_tens.equivalence_id = uuid.uuid4()
         lut_tens.address = address
         cmd.ps.primary_op.activation.lut_index = (address - lut_start) // slot_size
